@@ -372,6 +372,29 @@ def run_case(case):
           "nontrivial": accepted >= 4 and stats["probes"]["shared_module_definitions"] >= 2, "stats": stats}
 
 
+def _site_check(cobj, topmod, modname, combined, backend, top):
+  """(3b) the instantiation site: inside the parent's module, the instance must instantiate the module this
+  (class, arguments) gets when translated alone.  Verilog backend only (the Yosys backend's handling of
+  component lists is known finding F16); parents that cannot be named are skipped."""
+  if backend != "verilog" or topmod is None:
+    return None
+  par = cobj.get_parent_object()
+  if par is top:
+    pmods = [m for m in combined if m.startswith(type(top).__name__)]
+  else:
+    pkey = (type(par), repr(par._dsl.args), repr(sorted(par._dsl.kwargs.items())))
+    pmods = [modname[pkey]] if pkey in modname else []
+  if len(pmods) != 1 or pmods[0] not in combined:
+    return None
+  inst = cobj._dsl._my_name + "".join("__%d" % i for i in (cobj._dsl._my_indices or ()))
+  m = re.search(r"(\w+) %s \(" % re.escape(inst), combined[pmods[0]][0])
+  if m and m.group(1) != topmod and m.group(1) not in ("module", "begin", "end"):
+    return C.viol("instance_uses_other_module",
+                  {"instance": repr(cobj), "parent_module": pmods[0], "instantiates": m.group(1),
+                   "own_module": topmod, "backend": backend}, backend=backend)
+  return None
+
+
 def alias_check(d, backend, text, stats):
   from pymtl3.dsl.Component import Component
   combined = module_bodies(text)
@@ -382,6 +405,7 @@ def alias_check(d, backend, text, stats):
     return None
   comps = sorted(top.get_all_object_filter(lambda x: isinstance(x, Component)), key=repr)
   seen = {}
+  modname = {}       # key -> module name of that (class, arguments) translated alone
   for cobj in comps:
     if cobj is top:
       continue
@@ -389,6 +413,9 @@ def alias_check(d, backend, text, stats):
     key = (type(cobj), repr(args), repr(sorted(kwargs.items())))
     if key in seen:
       seen[key] += 1
+      v = _site_check(cobj, modname.get(key), modname, combined, backend, top)
+      if v:
+        return v
       continue
     seen[key] = 1
     try:
@@ -397,7 +424,11 @@ def alias_check(d, backend, text, stats):
       t2, topmod = S.translate(fresh, backend)
     except Exception:
       continue            # cannot be rebuilt alone (parameters set through set_param etc.)
+    modname[key] = topmod
     stats["instances_checked"] += 1
+    v = _site_check(cobj, topmod, modname, combined, backend, top)
+    if v:
+      return v
     alone = module_bodies(t2)
     body = alone.get(topmod)
     if not body or topmod not in combined:
